@@ -260,6 +260,43 @@ def check_uniform(case, ctx):
     ctx.require(np.all(np.abs(v - want) <= 1e-12), "uniform_cdf", lambda: "uniform %r vs closed form %r; rel pts %s w=%r h=%r" % (v, want, case["pts"], w, h))
 
 
+@st.composite
+def s_big_call(draw):
+    base = draw(cov_case(npts=(1, 1), far=False))
+    base["n"] = draw(st.sampled_from([20000, 30000, 50000, 90000, 16384, 16385]))
+    base["span"] = draw(st.sampled_from([3.0, 6.0, 12.0]))
+    return base
+
+
+def check_big_call(case, ctx):
+    """one kernel call on tens of thousands of points (what transform does on a fine grid) must equal the same points evaluated
+    in calls of a few hundred, and a sample of them must agree with the reference"""
+    sigma, mu, _, _, _, _, r = setup(dict(case, z=[[0, 0]]))
+    labels(ctx, r)
+    n = case["n"]
+    side = int(math.ceil(math.sqrt(n)))
+    g = np.linspace(-case["span"], case["span"], side)
+    X, Y = np.meshgrid(g, g, indexing="ij")
+    x = (mu[0] + X.ravel() * math.sqrt(case["vx"]))[:n]
+    y = (mu[1] + Y.ravel() * math.sqrt(case["vy"]))[:n]
+    ctx.label("n=%d" % n)
+    ctx.nontrivial(r != 0.0)
+    big = gauss(ctx, x, y, mu, sigma)
+    small = np.concatenate([gauss(ctx, x[i:i + 500], y[i:i + 500], mu, sigma) for i in range(0, n, 500)])
+    ctx.require(not np.any(np.isnan(big)), "nan", "NaN in a large kernel call")
+    bad = np.abs(big - small) > 1e-12
+    ctx.require(not np.any(bad), "large_call_differs_from_small_calls",
+                lambda: "%d points in one call vs calls of 500: %d values differ, first at index %d (%r vs %r), r=%r"
+                % (n, int(bad.sum()), int(np.argmax(bad)), big[np.argmax(bad)], small[np.argmax(bad)], r))
+    if r != 0.0:
+        h = (x - mu[0]) / math.sqrt(case["vx"])
+        k = (y - mu[1]) / math.sqrt(case["vy"])
+        for i in range(0, n, max(1, n // 12)):
+            ref, _ = bvn.ref(float(h[i]), float(k[i]), r)
+            if ref is not None:
+                ctx.require(abs(float(big[i]) - ref) <= 1e-7, "accuracy", lambda: "index %d of a %d-point call: %r vs reference %r" % (i, n, big[i], ref))
+
+
 def VALID_DEFAULT(case):
     try:
         if "vx" in case:
@@ -293,6 +330,9 @@ CLAUSES = [
                 "each argument, every rectangle mass >= -1e-12; non-trivial = r != 0"),
     Clause("tails", tail_case(), check_tails, quick=3000, thorough=40000,
            rule="one or both arguments at +-40..10^4 sd: limits 0 / marginal Phi / 1 to 1e-12, never NaN; non-trivial = r != 0"),
+    Clause("large_call", s_big_call(), check_big_call, quick=64, thorough=640, floors=None,
+           rule="one call on 16384..90000 points (a square grid out to 3 / 6 / 12 sd) equals the same points in calls of 500, and 12 sampled "
+                "values agree with the reference to 1e-7; non-trivial = r != 0"),
     Clause("product", cov_case(), check_product, quick=2000, thorough=20000,
            rule="zero covariance (matrix given as array and as nested list): gaussian, sbvn_cdf and bvn_cdf equal Phi*Phi of scipy to 1e-12; "
                 "non-trivial = unequal variances"),
